@@ -11,7 +11,7 @@ open Goflow Goflow.Producer
 structure Src where
   ip : Bytes
   port : Nat
-  deriving Repr, DecidableEq, Inhabited, BEq
+  deriving Repr, DecidableEq, Inhabited
 
 structure State where
   templates : List (Src × Netflow.Store) := []
@@ -35,6 +35,14 @@ structure Out where
 def unmap (ip : Bytes) : Bytes :=
   if ip.length = 16 ∧ ip.take 10 = List.replicate 10 0 ∧ (ip.drop 10).take 2 = [0xff, 0xff] then ip.drop 12 else ip
 
+/-- the enrich callback of Produce for NetFlow: receive time and exporter address -/
+def stampRecv (recvNs : Nat) (sa : Bytes) (m : FlowMsg) : FlowMsg :=
+  { m with timeReceivedNs := recvNs, samplerAddress := sa }
+
+/-- the enrich callback of Produce for sFlow: receive time as flow start and end -/
+def stampSflow (recvNs : Nat) (m : FlowMsg) : FlowMsg :=
+  { m with timeReceivedNs := recvNs, timeFlowStartNs := recvNs, timeFlowEndNs := recvNs }
+
 /-- NetFlowPipe.DecodeFlow. A datagram that only lacks some templates still yields the messages of
     the sets whose templates are known and then reports template-not-found (after the `fix:` commit;
     the pinned tree dropped everything). -/
@@ -49,7 +57,7 @@ def netflowPipe (cfg : Config) (st : State) (src : Src) (recvNs : Nat) (payload 
     if version = 5 then
       match V5.decodeMessage b with
       | .error e => ⟨st, [], some e⟩
-      | .ok p => ⟨st, (processLegacy p).map fun m => { m with timeReceivedNs := recvNs, samplerAddress := sa }, none⟩
+      | .ok p => ⟨st, (processLegacy p).map (stampRecv recvNs sa), none⟩
     else if version = 9 ∨ version = 10 then
       let o := if version = 9 then Netflow.decodeMessageNetFlow tpl b else Netflow.decodeMessageIPFIX tpl b
       let st := st.setTemplates src o.store
@@ -61,7 +69,7 @@ def netflowPipe (cfg : Config) (st : State) (src : Src) (recvNs : Nat) (payload 
         match r.err with
         | some e => ⟨st, [], some e⟩
         | none =>
-          ⟨st, r.msgs.map fun m => { m with timeReceivedNs := recvNs, samplerAddress := sa },
+          ⟨st, r.msgs.map (stampRecv recvNs sa),
             if o.tnf then some .tnf else none⟩
     else ⟨st, [], some .bad⟩
 
@@ -72,7 +80,7 @@ def sflowPipe (cfg : Config) (st : State) (recvNs : Nat) (payload : Bytes) : Out
   | .ok p =>
     match processSflow (some cfg) p with
     | .error e => ⟨st, [], some e⟩
-    | .ok ms => ⟨st, ms.map fun m => { m with timeReceivedNs := recvNs, timeFlowStartNs := recvNs, timeFlowEndNs := recvNs }, none⟩
+    | .ok ms => ⟨st, ms.map (stampSflow recvNs), none⟩
 
 /-- AutoFlowPipe.DecodeFlow -/
 def autoPipe (cfg : Config) (st : State) (src : Src) (recvNs : Nat) (payload : Bytes) : Out :=
